@@ -79,6 +79,14 @@ func streamErrorClause(c *sim.Ctx, cfg, st *sim.Stream) {
 		c.Ops++
 		c.GuardNoOOM("Skip/BufferReader", func() { err = br.Skip(thrift.TType(v.T)) })
 		c.Tracef("A: Skip(type %d) of a %d-byte value, source fails with %v at %d => %v", v.T, len(enc), injected, cut, err)
+		if err != nil && !src.Issued {
+			// the call failed before the source reported its error: not a failure caused by
+			// the underlying reader, so this clause says nothing about it
+			c.Count("probe.failure_not_caused_by_source")
+			br.Recycle()
+			dr.Release(nil)
+			return
+		}
 		checkIs(c, "Skip/BufferReader", err, injected, "Skip")
 		c.Count("probe.skip_failed_on_source_error")
 		c.NonTriv = true
@@ -116,6 +124,10 @@ func streamErrorClause(c *sim.Ctx, cfg, st *sim.Stream) {
 			continue
 		}
 		c.Tracef("A: %s spans the cut at %d (item at %d..%d), source fails with %v => %v", it, cut, off, off+len(it.enc), injected, err)
+		if err != nil && !src.Issued {
+			c.Count("probe.failure_not_caused_by_source")
+			break
+		}
 		checkIs(c, site, err, injected, it.String())
 		c.NonTriv = true
 		c.Abs(0x310000 | uint32(it.kind)<<8 | uint32(errKindCode(injected)))
